@@ -153,6 +153,14 @@ pub fn std_resources() -> Vec<Resource> {
         resource("ns:a", &[], ResourceType::Mime(MimeType::TextPlain), "ns-a", &[], 0),
         resource("fn", &[], ResourceType::Mime(MimeType::FnJavascript), "function fn(){}", &[], 0),
         resource("tpl", &[], ResourceType::Template, "tpl({{1}})", &[], 0),
+        // identifier collisions (order matters): `bad` is rejected because its second alias is
+        // taken; it must leave no trace, so `s1x` (its first alias) can be loaded afterwards as a
+        // resource of its own; `bad2` is rejected the same way, then a resource really named
+        // `bad2` is loaded: the alias `leak` of the rejected one resolves to nothing
+        resource("bad", &["s1x", "a-alias"], ResourceType::Mime(MimeType::TextPlain), "bad", &[], 0),
+        resource("s1x", &[], ResourceType::Mime(MimeType::TextPlain), "s1x", &[], 0),
+        resource("bad2", &["leak", "a-alias"], ResourceType::Mime(MimeType::TextPlain), "bad2-rejected", &[], 0),
+        resource("bad2", &[], ResourceType::Mime(MimeType::TextPlain), "bad2", &[], 0),
     ]
 }
 
